@@ -9,9 +9,11 @@ import (
 	"fmt"
 	"io"
 	"math"
+	"regexp"
 	"sort"
 	"strconv"
 	"strings"
+	"unicode/utf8"
 )
 
 // Bad is one disagreement: a stable class (explanation) and a human text.
@@ -27,6 +29,7 @@ func parseOne(body []byte) (any, error) {
 	if err := dec.Decode(&v); err != nil {
 		return nil, err
 	}
+	v = collapseReplacement(v)
 	var extra any
 	if err := dec.Decode(&extra); err != io.EOF {
 		if err == nil {
@@ -37,6 +40,47 @@ func parseOne(body []byte) (any, error) {
 	return v, nil
 }
 
+// rawUTF8: RFC 8259 JSON text is UTF-8.  A body that carries bytes which are not valid UTF-8 (copied through from
+// a label value or a log line) is rejected by a strict parser even though encoding/json tolerates it.
+func rawUTF8(shape string, body []byte) *Bad {
+	if utf8.Valid(body) {
+		return nil
+	}
+	i := 0
+	for i < len(body) {
+		r, n := utf8.DecodeRune(body[i:])
+		if r == utf8.RuneError && n == 1 {
+			break
+		}
+		i += n
+	}
+	return bad(shape+"_raw_invalid_utf8_in_string", "the body is not valid UTF-8 (byte 0x%02x at offset %d, copied through unescaped): %s", body[i], i, snippet(body))
+}
+
+var replRun = regexp.MustCompile("\uFFFD+")
+
+// collapseReplacement rewrites every string (and object key) of a parsed document with runs of U+FFFD collapsed
+// to one: an encoder may replace each invalid byte (encoding/json) or each maximal invalid sequence
+// (strings.ToValidUTF8, Loki) by U+FFFD; both are accepted.
+func collapseReplacement(v any) any {
+	switch x := v.(type) {
+	case string:
+		return replRun.ReplaceAllString(x, "\uFFFD")
+	case []any:
+		for i := range x {
+			x[i] = collapseReplacement(x[i])
+		}
+		return x
+	case map[string]any:
+		out := make(map[string]any, len(x))
+		for k, e := range x {
+			out[replRun.ReplaceAllString(k, "\uFFFD")] = collapseReplacement(e)
+		}
+		return out
+	}
+	return v
+}
+
 func mustJSON(v any) string { b, _ := json.Marshal(v); return string(b) }
 
 // jsonString is what a string means once it went through JSON: encoding/json replaces every byte that is not
@@ -45,7 +89,7 @@ func jsonString(s string) string {
 	b, _ := json.Marshal(s)
 	var out string
 	json.Unmarshal(b, &out)
-	return out
+	return replRun.ReplaceAllString(out, "\uFFFD")
 }
 
 func jsonLabels(m map[string]string) map[string]string {
